@@ -19,7 +19,7 @@ if ! (cd "$WT" && go build ./... ) >>"$log" 2>&1; then echo "REJECT $NAME: does 
 ok=0
 for try in 1 2 3 4; do
   echo "== suite try $try" >>"$log"
-  (cd "$WT" && flock /tmp/redistest.lock go test -vet=off -count=1 ./... ) >"$log.suite" 2>&1
+  (cd "$WT" && flock /tmp/redistest.lock go test -p 1 -vet=off -count=1 ./... ) >"$log.suite" 2>&1
   cat "$log.suite" >>"$log"
   if ! grep -q "^FAIL\|^--- FAIL" "$log.suite"; then ok=1; break; fi
   # only the known TestServer restart flake may fail
